@@ -384,6 +384,8 @@ def _parse_attribute_name(name: str) -> str:
 
     chars = map(expand(_char_map), enumerate(name))
     name = "".join(chars).replace(" ", "_").replace("-", "_")
+    # Python normalises identifiers (NFKC) when it reads source code.
+    name = unicodedata.normalize("NFKC", name)
     if not name:
         return "blank"
     first_chars = set(string.ascii_letters) | {"_"}
